@@ -81,6 +81,23 @@ func (r *Recorder) Register(env *stick.Env) {
 		}
 		return ""
 	}
+	// ctxall() goes through everything a context offers - its name, its environment, its metadata (read, written,
+	// listed), its scope (read, written, listed) - and returns nothing: wherever a callback may be called, the
+	// context it is handed is complete
+	env.Functions["ctxall"] = func(ctx stick.Context, args ...stick.Value) stick.Value {
+		_ = ctx.Name()
+		_ = ctx.Env().Loader
+		m := ctx.Meta()
+		m.Set("verif-key", "v")
+		m.Get("verif-key")
+		m.Get("no-such-key")
+		_ = m.All()
+		sc := ctx.Scope()
+		sc.Set("verif_tmp", 1)
+		sc.Get("verif_tmp")
+		_ = sc.All()
+		return ""
+	}
 	// names() lists every name the scope holds at this point (sorted): nothing may be defined on the side
 	env.Functions["names"] = func(ctx stick.Context, args ...stick.Value) stick.Value {
 		var ns []string
@@ -109,7 +126,7 @@ func (r *Recorder) Register(env *stick.Env) {
 }
 
 var (
-	fsSafeName = regexp.MustCompile(`^[A-Za-z0-9_-][A-Za-z0-9_.-]*(/[A-Za-z0-9_-][A-Za-z0-9_.-]*)*$`)
+	fsSafeName = regexp.MustCompile(`^[A-Za-z0-9_-][A-Za-z0-9_.\\-]*(/[A-Za-z0-9_-][A-Za-z0-9_.\\-]*)*$`)
 	fsRing     []string
 	fsSeq      int
 )
@@ -138,6 +155,10 @@ func loaderFor(sources map[string]string) stick.Loader {
 	mod := uint32(8)
 	if m, err := strconv.Atoi(os.Getenv("VERIF_FSENV_MOD")); err == nil && m > 0 {
 		mod = uint32(m) // (a check with a million cases takes the file system for fewer of them)
+	}
+	if (h>>5)%8 == 5 {
+		// ... or from the library's own memory loader
+		return &stick.MemoryLoader{Templates: sources}
 	}
 	if (h>>5)%mod != 3%mod || base == "" || len(names) == 0 {
 		return &ShapedLoader{Templates: sources}
